@@ -43,12 +43,15 @@ impl TrieS {
     #[verifier::external_body]
     pub fn insert(&mut self, k: StrS, v: Ignore) -> (r: Option<Ignore>) ensures final(self).m@ == old(self).m@.insert(k.of, v) { unimplemented!() }
 }
-pub struct IgnoreFile { pub id: int }
 pub struct Error;
 #[verifier::external_body]
 pub fn vx_from_glob(e: GlobErr) -> (r: Error) { unimplemented!() }
-// get_applies_in_path(origin, file): the directory the file applies in (under contract in unit `ignore`)
-pub uninterp spec fn applies_in_of(origin: PathS, f: &IgnoreFile) -> PathS;
+// PathBuf::from(prefix(origin)): the root of the file system the origin lives on ("/" on unix): prefix() is string/component code, not decided
+pub uninterp spec fn fs_root(origin: PathS) -> PathS;
 #[verifier::external_body]
-pub fn get_applies_in_path(origin: &PathS, f: &IgnoreFile) -> (r: PathS) ensures r == applies_in_of(*origin, f) { unimplemented!() }
+pub fn vx_fs_root(origin: &PathS) -> (r: PathS) ensures r == fs_root(*origin) { unimplemented!() }
+// simplify_path (dunce::simplified): identity on unix
+pub fn simplify_path(p: &PathS) -> (r: PathS) ensures r == *p { *p }
+// the directory an ignore file applies in: its applies_in, or the file-system root for a global file (get_applies_in_path is an item of this unit)
+pub open spec fn applies_in_of(origin: PathS, f: &IgnoreFile) -> PathS { match f.applies_in { Some(p) => p, None => fs_root(origin) } }
 pub fn vx_id<T>(x: T) -> (r: T) ensures r == x { x }
